@@ -419,7 +419,9 @@ def rule_special_hosts(ctx, rule):
         ref = hm.func("is_special_host")
         out = []
         for h, want in (("localhost", True), ("LOCALHOST", True), ("127.0.0.1", True), ("127.0.0.1:8080", True), ("::1", True), ("2001:db8::1", True), ("a.com", False), ("localhost.a.com", False), ("1.2.3.4.a.com", False), ("abc", False),
-                        ("localhosting.com", False), ("10.0.0.1.nip.io", False), ("1.2.3.4a", False), ("a.localhost", False), ("x1.2.3.4", False), ("localhost:8080", True), ("::1.a.com", False), ("abc:g", False), ("1.2.3", False)):
+                        ("localhosting.com", False), ("10.0.0.1.nip.io", False), ("1.2.3.4a", False), ("a.localhost", False), ("x1.2.3.4", False), ("localhost:8080", True), ("::1.a.com", False), ("abc:g", False), ("1.2.3", False),
+                        # names spelled with hex letters only, with and without dots; the prefix 'localhost' followed by more
+                        ("cafe", False), ("de", False), ("abc.ca", False), ("cafe.de", False), ("dead.beef", False), ("bbc.ac.be", False), ("localhost.localdomain", False), ("localhost.lan", False), ("LOCALHOST:80", True), ("fe80::1", True)):
             try:
                 got = run_function(ctx.repo, ref, [h])
             except Raised as e:
@@ -430,6 +432,12 @@ def rule_special_hosts(ctx, rule):
     if language_undecided:
         # the pattern uses a construct outside the language algebra: the predicate is read on one host per class instead
         ctx.ob(rule, "SPECIAL_HOSTS_RE/on-host-classes", False, "is_special_host does not answer localhost / dotted quad / colon-bearing hex literal exactly", site, cells=special_cells)
+    # the same table, always: a shortcut in front of the pattern (a prefix test, a character-set test) leaves the call in place
+    try:
+        for desc, good in special_cells():
+            ctx.ob(rule, "is_special_host/table/" + desc.split(" -> ")[0], good, desc + ": only localhost, dotted quads (optionally with a port) and colon-bearing hex literals are special hosts", hm.site(fn), witness=desc.split("(", 1)[1].split(")")[0])
+    except Unknown as e:
+        ctx.undecided(rule, "is_special_host not interpretable: %s" % e)
 
 
 def netloc_template(ctx, rule):
